@@ -354,6 +354,7 @@ func (w *Worker) RunPath(entry *ssa.Function, prefix []Decision) (res *PathResul
 	w.hashCalls = w.hashCalls[:0]
 	w.res = &PathResult{Sites: map[string]*AssertSite{}, Covers: map[string]int{}, Funcs: map[string]int{}, KnownHit: map[string]bool{}}
 	w.res.Sites["$branch"] = &AssertSite{Msg: "branch feasibility"}
+	w.res.Sites["$range"] = &AssertSite{Msg: "no-overflow obligations of Int-mode arithmetic"}
 	w.resetSolverPath()
 	res = w.res
 	defer func() {
